@@ -32,6 +32,7 @@ def plan(tier, seed):
             jobs.append(j)
     from . import pageloop
     jobs += pageloop.jobs("C13", tier, seed)
+    jobs += pageloop.v2_masked_jobs("C13", tier)
     extra = dict(
         explanation="CrossHair (z3) over the real ParquetFile._column_filter on vector shims (row values, constants "
                     "and operators symbolic) against the documented semantics (flat list = AND, list of lists = OR of "
